@@ -43,7 +43,9 @@ theorem stored_nodup (env : Env) (ws : List Str) : (sortCases (lowerCases env ws
   Props.C10.sortCases_nodup _
 
 /-- **C04 (collapse)** every test case is stored in its converted form exactly once, so test cases whose converted (lower-cased)
-forms coincide — however many of them there are — are stored as one entry -/
+forms coincide — however many of them there are — are stored as one entry.  (Test cases that differ only by case but whose converted
+forms differ — `σ`/`ς`, or a test case that is kept as given — stay separate entries; they are separate alternatives of one language:
+`ci_default_exact_originals`.) -/
 theorem collapse (env : Env) (ws : List Str) (w : Str) (hw : w ∈ ws) :
     (sortCases (lowerCases env ws)).count (lowerOne env w) = 1 := by
   have h1 : (sortCases (lowerCases env ws)).count (lowerOne env w) ≤ 1 :=
